@@ -236,6 +236,8 @@ def eval (H : Host) : E → M Val
   | .call f args => bindM (eval H f) (fun fv => bindM (evalL H args) (fun vs => hostEv (.call fv vs) H.call))
   | .dot x name => bindM (eval H x) (fun o => getProp H o (.str name))
   | .index x y => bindM (eval H x) (fun o => bindM (eval H y) (fun k => getProp H o k))
+  -- OptionalExpression `a?.…`: when the base is nullish the whole chain is short-circuited to `undefined`
+  | .opt a e => bindM (getVar a) (fun v => if isNullish v then retM .undef else eval H e)
 /-- evaluation of a list of expressions, left to right -/
 def evalL (H : Host) : List E → M (List Val)
   | [] => retM []
@@ -252,6 +254,7 @@ def lref (H : Host) : E → M Ref
   | .cond c x y => bindM (eval H (.cond c x y)) (fun v => retM (.none v))
   | .comma l => bindM (eval H (.comma l)) (fun v => retM (.none v))
   | .call f a => bindM (eval H (.call f a)) (fun v => retM (.none v))
+  | .opt a e => bindM (eval H (.opt a e)) (fun v => retM (.none v))
 end
 
 /-- statement completions other than throw -/
